@@ -10,17 +10,36 @@ from rules.c10 import fold
 from rules.c03 import sites, closure_ret
 from rules.c16 import family_signature
 from rules import c19
+from mirq.paths import Paths, Unsupported
 
 PRIM = "embedded_graphics::primitives::"
 P = lambda i, n: ("param", i, n)
 
 
 def dist_predicate(t):
-    """-> (op, a, b, threshold) for  cast(length_squared(a - b)) op threshold"""
+    """-> (op, a, b, threshold) for  cast(length_squared(a - b)) op threshold   (t in canonical form: Lt / Le only,
+    `th > d` is `d < th`)"""
     for n in walk(t):
         m = match(n, ("bin", "?op", ("cast", ("call", "*::length_squared", "_", (("call", "*Sub>::sub", "_", ("?a", "?b")),)), "u32"), "?th"))
-        if m is not None and m["?op"] in ("Lt", "Le", "Gt", "Ge"):
+        if m is not None and m["?op"] in ("Lt", "Le"):
             return m["?op"], m["?a"], m["?b"], m["?th"]
+        m = match(n, ("bin", "?op", "?th", ("cast", ("call", "*::length_squared", "_", (("call", "*Sub>::sub", "_", ("?a", "?b")),)), "u32")))
+        if m is not None and m["?op"] in ("Lt", "Le"):
+            return {"Lt": "Gt", "Le": "Ge"}[m["?op"]], m["?a"], m["?b"], m["?th"]
+    return None
+
+
+def pred_tree(prog, f):
+    """canonical tree of a straight-line boolean function / closure, helpers introduced by an edit looked through"""
+    key = "_c05_paths"
+    if not hasattr(prog, key):
+        setattr(prog, key, Paths(prog))
+    try:
+        summs = getattr(prog, key).of(f)
+    except Unsupported:
+        return None
+    if len(summs) == 1 and not summs[0].facts and not summs[0].effects:
+        return summs[0].ret
     return None
 
 
@@ -43,7 +62,8 @@ def run(ctx, rep):
 def circle(prog, rep):
     C = PRIM + "circle::Circle"
     co = prog.method1(C, "contains", PRIM + "ContainsPoint")
-    pc = dist_predicate(strip_refs(Origins(co).return_origin()))
+    pt_ = pred_tree(prog, co)
+    pc = dist_predicate(pt_) if pt_ is not None else None
     SL = PRIM + "circle::points::Scanlines"
     nx = prog.method1(SL, "next", "core::iter::traits::iterator::Iterator")
     nw = prog.method1(SL, "new", None)
@@ -51,7 +71,8 @@ def circle(prog, rep):
     init = strip_refs(Origins(nw).return_origin())
     ps = None
     for c in prog.closures_of.get(nx.id, []):
-        r = dist_predicate(strip_refs(Origins(c).return_origin()))
+        pt_ = pred_tree(prog, c)
+        r = dist_predicate(pt_) if pt_ is not None else None
         if r is not None:
             ps = (c, r)
     ok = pc is not None and ps is not None and init[0] == "agg"
@@ -66,9 +87,12 @@ def circle(prog, rep):
         pt2 = a2 if a2[0] == "call" and a2[1].endswith("Mul<i32>>::mul") else b2
         cen2 = b2 if pt2 is a2 else a2
         good2 = match(pt2, ("call", "*Mul<i32>>::mul", "_", (("call", "*Point::new", "_", ("_", "_")), ("const", 2)))) is not None
-        f_c = [n for n in walk(cen2) if n[0] == "upvar" or (n[0] == "field" and n[2] == fidx["center_2x"])]
-        f_t = [n for n in walk(th2) if n[0] == "upvar" or (n[0] == "field" and n[2] == fidx["threshold"])]
-        good2 = good2 and bool(f_c) and bool(f_t) and "center_2x" in show(cen2) and "threshold" in show(th2)
+        def self_field(t, fname):
+            # the iterator's own field: captured as `self.<f>` (an upvar named after it) or read through captured `self`
+            if t[0] == "upvar":
+                return fname in (t[2] or "")
+            return t[0] == "field" and t[2] == fidx[fname] and t[1][0] in ("upvar", "param") and "self" in (t[1][2] or "")
+        good2 = good2 and self_field(cen2, "center_2x") and self_field(th2, "threshold")
         i_c, i_t = init[2][fidx["center_2x"]], init[2][fidx["threshold"]]
         good3 = match(i_c, ("call", "*Circle::center_2x", "_", (P(1, "circle"),))) is not None and match(i_t, ("call", "*Circle::threshold", "_", (P(1, "circle"),))) is not None
         ok = good1 and good2 and good3 and op1 == op2 == "Lt"
